@@ -48,12 +48,14 @@ func (w *c29Writer) Write(b []byte) (int, error) {
 }
 
 // c29Ctx describes one fake sender: its SSRC, the codecs "negotiated" for it and
-// the payload type the track's codec (VP8/90000) has among them (0 = not negotiated).
+// the payload type the track's codec (VP8/90000) has among them; neg = the codec was negotiated at all
+// (payload type 0 is a legal negotiated value: ctx2 has it).
 type c29Ctx struct {
 	id     string
 	ssrc   SSRC
 	codecs []RTPCodecParameters
 	pt     PayloadType
+	neg    bool
 }
 
 func c29Contexts() []c29Ctx {
@@ -65,9 +67,9 @@ func c29Contexts() []c29Ctx {
 	rtx := RTPCodecParameters{RTPCodecCapability: RTPCodecCapability{MimeType: MimeTypeRTX, ClockRate: 90000, SDPFmtpLine: "apt=96"}, PayloadType: 97}
 
 	return []c29Ctx{
-		{id: "ctx0", ssrc: 0x0A0A0A0A, codecs: []RTPCodecParameters{vp8(96, ""), rtx}, pt: 96},
-		{id: "ctx1", ssrc: 0xFFFFFFFE, codecs: []RTPCodecParameters{h264, vp8(120, "")}, pt: 120},
-		{id: "ctx2", ssrc: 1, codecs: []RTPCodecParameters{opus, vp8(35, "max-fs=12288")}, pt: 35},
+		{id: "ctx0", ssrc: 0x0A0A0A0A, codecs: []RTPCodecParameters{vp8(96, ""), rtx}, pt: 96, neg: true},
+		{id: "ctx1", ssrc: 0xFFFFFFFE, codecs: []RTPCodecParameters{h264, vp8(120, "")}, pt: 120, neg: true},
+		{id: "ctx2", ssrc: 1, codecs: []RTPCodecParameters{opus, vp8(0, "max-fs=12288")}, pt: 0, neg: true},
 		{id: "ctx3", ssrc: 0x33333333, codecs: []RTPCodecParameters{h264, opus}, pt: 0}, // VP8 not negotiated: Bind must fail
 	}
 }
@@ -249,7 +251,7 @@ func TestVerifC29(t *testing.T) {
 			}
 			switch {
 			case op < c29NCtx:
-				bound[op] = ctxs[op].pt != 0
+				bound[op] = ctxs[op].neg
 			case op < 2*c29NCtx-1:
 				bound[op-c29NCtx] = false
 			}
@@ -297,15 +299,15 @@ func TestVerifC29(t *testing.T) {
 					if step == last {
 						want := ctxs[op].pt
 						switch {
-						case want == 0 && err == nil:
+						case !ctxs[op].neg && err == nil:
 							c.Violation("bind|accepted-unnegotiated-codec", fmt.Sprintf("Bind(%s) succeeded although the track's codec is not among the context's codecs", ctxs[op].id), hist())
-						case want != 0 && err != nil:
+						case ctxs[op].neg && err != nil:
 							c.Violation("bind|rejected", fmt.Sprintf("Bind(%s) failed: %v", ctxs[op].id, err), hist())
-						case want != 0 && got.PayloadType != want:
+						case ctxs[op].neg && got.PayloadType != want:
 							c.Violation("bind|payload-type", fmt.Sprintf("Bind(%s) negotiated payload type %d, the context's VP8 entry has %d", ctxs[op].id, got.PayloadType, want), hist())
 						}
 					}
-					cur[op] = ctxs[op].pt != 0
+					cur[op] = ctxs[op].neg
 				case op < 2*c29NCtx-1:
 					_ = track.Unbind(tctx[op-c29NCtx])
 					cur[op-c29NCtx] = false
